@@ -5,7 +5,6 @@ CONSTANTS Kind = "queue"
           MaxVer = 2
           KLen = 1
           GenDepth = 0
-CONSTRAINT Bounded
 INVARIANTS TypeInv LawInv CanonInv LiveInv
 PROPERTIES Persist
 CHECK_DEADLOCK FALSE
